@@ -225,7 +225,7 @@ def tpRender(self, md, section, args,
 
     prefix = args.get('prefix')
     if prefix:
-        for k, v in treeData.items():
+        for k, v in list(treeData.items()):
             treeData[prefix + k[4:].replace('-', '_')] = v
 
     md._push(InstanceDict(self, md))
